@@ -580,7 +580,7 @@ func init() {
 			pp := &Printer{}
 			pp.program(prog)
 			text, pos := Render(pp.Toks, 0, r)
-			c.checkCase(text, "ccase", map[string]any{"edit": edit, "expected_tree": gd{pos}.program(prog)})
+			c.checkCase(text, "ccase", map[string]any{"edit": edit, "expected_tree": expectedOrNone(pos, prog)})
 			c.count("edit:" + edit)
 		}
 	}
